@@ -342,6 +342,9 @@ def replay(case):
     if row[0] == 'ioport_half':
         v = check_ioport_half_closed()
         return v and '%s: %s' % v[0]
+    if row[0] == 'multi_functions':
+        v = check_multi_functions()
+        return v and '%s: %s' % v[0]
     if row[0] == 'deadpeer':
         from . import c18
         v, _ = c18.check_send_to_dead_peer()
@@ -488,6 +491,104 @@ def close_explore_worker(jobs):
         if not complete:
             res['counts']['close_race_cut_at_limit'] = 1
     return res
+
+
+def check_multi_functions():
+    """The module-level functions behind MultiPort, called directly: multi_iter_pending hands out
+    what every open member has taken in, once, each member's messages in order (with the member
+    when asked to); a blocking multi_receive hands out a message as soon as one is deliverable
+    and sleeps only when there is none; multi_send reaches every member once; a closed member is
+    passed over."""
+    import mido.ports as mp
+    out = []
+    saved = (mp.sleep,)
+    sleeps = [0]
+
+    def sleep_hook():
+        sleeps[0] += 1
+        if sleeps[0] > 40:
+            raise Hang()
+    mp.sleep = sleep_hook
+    try:
+        for scripts in ([['arrive3'], ['arrive']], [[], ['arrive', 'arrive']], [['nothing', 'arrive'], ['nothing', 'nothing', 'arrive3']],
+                        [['arrive_close'], ['arrive']], [['close'], ['nothing', 'arrive']]):
+            for yp in (False, True):
+                for ports_as in ('list', 'tuple', 'generator'):
+                    wa, wb = World(scripts[0]), World(scripts[1])
+                    wb.nextid = 51
+                    InD, OutD, IOD = make_doubles()
+                    a, b = IOD('a', world=wa, who='a'), IOD('b', world=wb, who='b')
+                    mk = {'list': lambda: [a, b], 'tuple': lambda: (a, b), 'generator': lambda: (x for x in (a, b))}[ports_as]
+                    tag = 'multi-functions/%s/%s' % ('pairs' if yp else 'plain', ports_as)
+                    total = sum({'arrive': 1, 'arrive3': 3, 'arrive_close': 1}.get(x, 0) for sc in scripts for x in sc)
+
+                    def ids(rs, where):
+                        got = []
+                        for r in rs:
+                            if yp:
+                                if not (isinstance(r, tuple) and len(r) == 2 and (r[0] is a or r[0] is b)):
+                                    out.append((tag, '%s gave %s' % (where, core.srepr(r))))
+                                    return None
+                                i = arrival_id(r[1])
+                                if (r[0] is b) != (i >= 51):
+                                    out.append((tag, '%s: message %d came out with the other member' % (where, i)))
+                                    return None
+                                got.append(i)
+                            else:
+                                got.append(arrival_id(r))
+                        return got
+                    try:
+                        # non-blocking rounds until everything scripted has arrived
+                        got = []
+                        for rnd in range(4):
+                            s0 = sleeps[0]
+                            g = ids(list(mp.multi_iter_pending(mk(), yield_ports=yp)), 'multi_iter_pending')
+                            if g is None:
+                                break
+                            if sleeps[0] != s0:
+                                out.append((tag, 'multi_iter_pending slept'))
+                                break
+                            got += g
+                        else:
+                            exp_a = [i for i in range(1, 1 + sum({'arrive': 1, 'arrive3': 3, 'arrive_close': 1}.get(x, 0) for x in scripts[0]))]
+                            exp_b = [i for i in range(51, 51 + sum({'arrive': 1, 'arrive3': 3, 'arrive_close': 1}.get(x, 0) for x in scripts[1]))]
+                            if [i for i in got if i < 51] != exp_a or [i for i in got if i >= 51] != exp_b:
+                                out.append((tag, 'scripts %r: multi_iter_pending rounds gave %r, expected %r and %r in order, once'
+                                            % (scripts, got, exp_a, exp_b)))
+                        # blocking generator on fresh devices: the first message comes out after at most as
+                        # many sleeps as there are empty rounds before it
+                        wa, wb = World(scripts[0]), World(scripts[1])
+                        wb.nextid = 51
+                        a, b = IOD('a', world=wa, who='a'), IOD('b', world=wb, who='b')
+                        if total:
+                            empty_rounds = 0
+                            while not any({'arrive': 1, 'arrive3': 1, 'arrive_close': 1}.get((sc[empty_rounds:empty_rounds + 1] or ['nothing'])[0], 0)
+                                          for sc in scripts):
+                                empty_rounds += 1
+                            s0 = sleeps[0]
+                            gen = mp.multi_receive(mk(), yield_ports=yp, block=True)
+                            first = next(gen)
+                            g = ids([first], 'multi_receive')
+                            if g is not None and sleeps[0] - s0 > empty_rounds:
+                                out.append((tag, 'scripts %r: blocking multi_receive slept %d times before its first message although one was deliverable after %d'
+                                            % (scripts, sleeps[0] - s0, empty_rounds)))
+                            gen.close()
+                        # multi_send: every member once, a copy each time is not required, the same content is
+                        wa.log[:], wb.log[:] = [], []
+                        if not a.closed and not b.closed:
+                            m = user_msg(5)
+                            mp.multi_send(mk(), m)
+                            for w in (wa, wb):
+                                sent = [x[2] for x in w.log if x[1] == 'send']
+                                if sent != [user_msg(5)]:
+                                    out.append((tag, 'multi_send: a member saw %r' % (sent,)))
+                    except Hang:
+                        out.append((tag + '/hang', 'scripts %r: did not return within 40 sleeps' % (scripts,)))
+                    except Exception as e:
+                        out.append((tag + '/raises', 'scripts %r: %r' % (scripts, e)))
+    finally:
+        mp.sleep, = saved
+    return out[:4]
 
 
 def check_ioport_half_closed():
@@ -659,6 +760,9 @@ def run(ctx):
     for key, msg in check_ioport_half_closed():
         ctx.violation('lifecycle/' + key, {'row': ['ioport_half']}, msg)
     ctx.replayed += 3
+    for key, msg in check_multi_functions():
+        ctx.violation('lifecycle/' + key, {'row': ['multi_functions']}, msg)
+    ctx.replayed += 30
     # a device that discovers on a WRITE that it is gone (real TCP)
     v, skipped = c18.check_send_to_dead_peer()
     ctx.replayed += 1
